@@ -24,7 +24,7 @@ func init() {
 			"R3: the store in Write is dominated by the not-full edge of Len()==Cap() and the full edge returns an error wrapping ErrExhausted; the load in Read is dominated by the not-empty edge (Len() != 0, or read index != write index) and the empty edge returns io.EOF; every load in At is dominated by the in-range edges of idx<0 || idx>=Len() and the out-of-range edge panics. " +
 			"R4: the constructor allocates size+1 slots and Cap() returns len(buf)-1. " +
 			"R6: the count a caller passes to Skip is clamped to Len() (guard or phi over the clamped edge) before it is added to an index. " +
-			"R5: where At folds read index + i back into the array, the fold (subtract len(buf), as an offset variable, a re-assigned position or a separate load) is selected by the test >= len(buf), or is the remainder modulo len(buf): slot len(buf) does not exist.",
+			"R5: where At folds read index + i back into the array, the fold (subtract len(buf), as an offset variable, a re-assigned position or a separate load) is selected by the test >= len(buf), or is the remainder modulo len(buf): slot len(buf) does not exist. R7: a readable segment whose end is chosen by the order of read and write index is taken only behind a not-empty test that holds from the entry and from every advance of the read index. R8: helpers the buffer hands parts of its backing array to re-slice them with a constant bound only behind a test that the part is that long.",
 		NotDecided: "FIFO order, the min(requested, Len) arithmetic of ReadN/Skip, the Len() formula: value statements. This is the thinnest claim of the twenty.",
 	})
 }
